@@ -12,8 +12,26 @@ package fileutil
 //@ trusted file-system effects (create, write, file sync, close, directory sync) are outside the subset
 //@ ghostset gFlagDir := ite(result == nil, dir, old(gFlagDir))
 
-//@ func SyncDir [C16 C10]
-//@ trusted opens the directory and fsyncs it (file-system effect only)
 
 //@ func MkdirAll [C04 C16]
 //@ trusted file-system effects only (creates the directory and its parents, syncing each)
+
+// ---------------------------------------------------------------- creating a directory durably (C16)
+// gDirtyDir: the directory (path) whose entry list changed and has not been fsynced since ("" = none).
+// A new directory's entry lives in its PARENT; that is the directory that must be synced.
+//@ ghost var gDirtyDir int
+//@ extern github.com/lni/vfs (fs FS) PathDir
+//@ ensures result == uf("pathdir", path)
+//@ extern github.com/lni/vfs (fs FS) MkdirAll
+//@ ghostset gDirtyDir := uf("pathdir", dir)
+//@ func DirExist [C16]
+//@ trusted read-only file-system query
+//@ func SyncDir [C16 C10]
+//@ trusted opens the directory and fsyncs it (file-system effect only)
+//@ ghostset gDirtyDir := ite(result == nil && old(gDirtyDir) == dir, 0, old(gDirtyDir))
+
+//@ func Mkdir [C16]
+//@ noframe
+//@ requires gDirtyDir == 0 && uf("pathdir", dir) != dir && uf("pathdir", dir) != 0
+//@ modifies gDirtyDir
+//@ ensures result == nil ==> gDirtyDir == 0
